@@ -193,3 +193,8 @@ def run(ctx):
     ctx.notes["betterproto_raises"] = sum(1 for e in events if e["res"] == "raise")
     ctx.notes["reference_rejects"] = sum(1 for e in events if e["ref"] == "reject")
     ctx.notes["accept_reject_agreement_with_reference"] = agree
+
+
+def redrive(ev):
+    c = ev["case"]
+    return mal_event((c["schema"], c["ty"], bytes(ev["b"]), c["tag"]))
